@@ -316,6 +316,25 @@ where
 
 //============================================================================
 
+#[cfg(probminhash_verif)]
+impl<H> ProbOrdMinHash2<H>
+where
+    H: Hasher + Default,
+{
+    /// verification hook : (indices, values) of the store as left by the last hash_set
+    pub fn verif_selected(&self) -> (Vec<u64>, Vec<f64>) {
+        (self.min_store.indices.clone(), self.min_store.values.clone())
+    }
+    /// verification hook : the seed mixed into every per-pair generator
+    pub fn verif_seed(&self) -> u64 {
+        self.seed
+    }
+    /// verification hook : the seed of the combining hasher
+    pub fn verif_wyhash_seed(&self) -> u64 {
+        self.min_store.wyhash_seed
+    }
+}
+
 #[cfg(test)]
 mod tests {
 
